@@ -996,11 +996,20 @@ def m_sha1(ex, st, node, *a):
     return h
 
 
+def ascii_result(st, r):
+    """library lemma: an ASCII-only byte string is valid UTF-8 and decodes to itself (regex inclusion the solvers do not find)"""
+    st.assume(z3.InRe(r, z3.Star(z3.Range(chr(0), chr(127)))))
+    f = DEC.setdefault('utf8', z3.Function('dec_utf8', z3.StringSort(), z3.StringSort()))
+    st.assume(f(r) == r)
+    st.assume(z3.Function('utf8_valid', z3.StringSort(), z3.BoolSort())(r))
+
+
 def m_b64(ex, st, node, b):
     r = B64(b.term)
     # base64 alphabet only: no CR, LF, space or control characters
     alpha = z3.Union(z3.Range('A', 'Z'), z3.Range('a', 'z'), z3.Range('0', '9'), z3.Re('+'), z3.Re('/'), z3.Re('='))
     st.assume(z3.InRe(r, z3.Star(alpha)))
+    ascii_result(st, r)
     return VStr(r, TBytes())
 
 
